@@ -11,6 +11,7 @@
 #include <xalanc/Include/XalanMap.hpp>
 #include <xalanc/Include/XalanSet.hpp>
 #include <xalanc/Include/XalanDeque.hpp>
+#include <xalanc/Include/XalanObjectCache.hpp>
 #include <xalanc/Include/XalanMemoryManagement.hpp>
 #include <xercesc/framework/MemoryManager.hpp>
 
@@ -289,6 +290,32 @@ static std::string show(LstPair& p, const std::string& pre, bool& bad)
     return o.str();
 }
 
+// ------------------------------------------------------------------------------------ object cache
+struct CObj
+{
+    static long created;
+    static long alive;
+    long id;
+    std::vector<int> data;
+    CObj() : id(created++) { ++alive; }
+    ~CObj() { --alive; }
+    void clear() { data.clear(); }
+};
+long CObj::created = 0;
+long CObj::alive = 0;
+
+typedef XalanObjectCache<CObj, DefaultCacheCreateFunctor<CObj>, DeleteFunctor<CObj>, ClearCacheResetFunctor<CObj> > XCache;
+
+struct CachePair
+{
+    std::unique_ptr<XCache> x;
+    CObj* slot[4];
+    std::set<long> held;     // reference: ids currently handed out
+    CachePair() : x(new XCache(g_mm)) { for (int i = 0; i < 4; ++i) slot[i] = 0; CObj::created = 0; }
+    // objects still held are given back first: without the busy list the cache does not own what it handed out
+    ~CachePair() { for (int i = 0; i < 4; ++i) if (slot[i] != 0) x->release(slot[i]); }
+};
+
 template <class It> static It adv(It it, long n) { while (n-- > 0) ++it; return it; }
 
 // ------------------------------------------------------------------------------------ main
@@ -300,6 +327,7 @@ struct World
     std::vector<DeqPair*> ds;
     std::vector<LstPair*> ls;
     std::vector<Slot> slots;
+    std::unique_ptr<CachePair> oc;
     World()
     {
         for (int i = 0; i < 4; ++i) vs.push_back(new VecPair);
@@ -308,10 +336,12 @@ struct World
         for (int i = 0; i < 4; ++i) ds.push_back(new DeqPair);
         for (int i = 0; i < 3; ++i) ls.push_back(new LstPair);
         slots.resize(4);
+        oc.reset(new CachePair);
     }
     ~World()
     {
         slots.clear();
+        oc.reset();
         for (auto* p : vs) delete p;
         for (auto* p : ms) delete p;
         for (auto* p : ss) delete p;
@@ -344,6 +374,7 @@ int main()
         if (sub == "reset")
         {
             w.reset();
+            leaked += CObj::alive; CObj::alive = 0;
             leaked += g_mm.live + g_mmList.live;   // every block must be back once the containers are destroyed
             g_mm.live = 0; g_mmList.live = 0;
 #if defined(C20_ELEM)
@@ -599,6 +630,41 @@ int main()
             out = show(p, pre, b2);
             if (bad && !b2) out += " !std";
             bad = bad || b2;
+        }
+        else if (sub == "oc")
+        {
+            CachePair& c = *w->oc;
+            std::ostringstream o;
+            const size_t sl = size_t(a[0]);
+            if (op == "new") { w->oc.reset(); w->oc.reset(new CachePair); o << "created=0"; }
+            else if (op == "get" && sl < 4)
+            {
+                CObj* const p = c.x->get();
+                c.slot[sl] = p;
+                // the property: an object handed out is held by nobody else, and comes back reset
+                if (c.held.count(p->id) != 0 || !p->data.empty()) bad = true;
+                c.held.insert(p->id);
+                o << "r=" << p->id << " n=" << p->data.size() << " created=" << CObj::created;
+            }
+            else if (op == "put" && sl < 4 && c.slot[sl] != 0)
+            {
+                c.slot[sl]->data.push_back(int(a[1]));
+                o << "r=" << c.slot[sl]->id << " n=" << c.slot[sl]->data.size() << " created=" << CObj::created;
+            }
+            else if (op == "release" && sl < 4 && c.slot[sl] != 0)
+            {
+                c.held.erase(c.slot[sl]->id);
+                if (!c.x->release(c.slot[sl])) bad = true;
+                c.slot[sl] = 0;
+                o << "created=" << CObj::created;
+            }
+            else { std::cout << "bad\n"; continue; }
+            if (CObj::alive != CObj::created) bad = true;   // nothing is deleted before the cache is destroyed
+            out = o.str();
+            if (bad) out += " !std";
+            if (bad) poisoned = true;
+            std::cout << out << "\n";
+            continue;
         }
         else { std::cout << "bad\n"; continue; }
         if (sub != "set")
